@@ -112,7 +112,12 @@ def entrypoints_bounded(ctx):
             root.mkdir()
             t = _tree(rng, 2)
             _write(str(root), t)
-            (root / ".thailint.yaml").write_text(_ROOT_CONFIG, encoding="utf-8")
+            if rng.random() < 0.5:
+                (root / ".thailint.yaml").write_text(_ROOT_CONFIG, encoding="utf-8")
+            else:  # the same configuration discovered as .thailint.json
+                import json as _json
+                import yaml as _yaml
+                (root / ".thailint.json").write_text(_json.dumps(_yaml.safe_load(_ROOT_CONFIG)), encoding="utf-8")
             clear_ignore_parser_cache()
             for parts in _dirs_of(t):
                 d = root.joinpath(*parts)
